@@ -5,6 +5,7 @@ import PyamgV.Proofs.StdAgg6
 import PyamgV.Proofs.NaiveAgg
 import PyamgV.Proofs.Pairwise
 import PyamgV.Proofs.ExtPairwise
+import PyamgV.Proofs.ExtC12LloydAgg
 
 /-! # C12 — aggregation routines return valid partitions of the strength graph
 
@@ -14,7 +15,12 @@ and compared exactly with the rebuilt kernels on every run — and the transitio
 (any selection order, any matched neighbour) for `pairwise_aggregation`, refined by the executable
 kernel model `ExtPw.pairwise` (multimap as key-ordered insertion-stable list, `Rat` weights; driver op
 `ext_pairwise`, compared exactly with the rebuilt kernel on every run). Every symmetric graph with
-`n ≥ 1`, self loops allowed; the pairwise kernel model: every CSR pattern with in-range indices. -/
+`n ≥ 1`, self loops allowed; the pairwise kernel model: every CSR pattern with in-range indices.
+Lloyd (extension E18): `ExtLloyd.lloydCluster` / `ExtLloyd.lloydAggregation` — NumPy initialisation,
+the exact `bellman_ford` kernel model `N.bellmanFord`, `most_interior_nodes` loop by loop, the
+`while changed and it < maxiter` loop, measure handling and the AggOp assembly — run by the driver
+(`ext_c12_lloyd`, `ext_c12_lloyd_agg`, `ext_c12_most_interior`) and compared exactly with
+`lloyd_cluster`, `lloyd_aggregation` (replayed permutation) and the rebuilt kernel on every run. -/
 namespace PyamgV.Props.C12
 
 /-- ids are `-1` or `0..k-1`, `k ≤ n-1` (the `-n` sentinel never collides), unaggregated = exactly the
@@ -44,6 +50,38 @@ restate pairwise_kernel_link := PyamgV.ExtPw.pairwise_model_link
 restate assignment_comp_fiber := PyamgV.ExtPw.fiberLe_comp
 /-- `T = T1 @ T2 @ ... @ Tm`: the aggregates of `m` composed matchings have at most `2^m` nodes -/
 restate pairwise_matchings_fiber := PyamgV.ExtPw.matchChain_fiber
+
+/-! ### Lloyd aggregation (E18) -/
+
+/-- the array model of the `bellman_ford` kernel refines the function model the C18 theorems are
+about: whenever `BF.loop` exits with `t'`, `N.bellmanFord` converges to arrays representing `t'` -/
+restate bellman_ford_array_refines := PyamgV.ExtLloyd.go_loop
+/-- the final Bellman–Ford pass of `lloyd_cluster` (any pattern with in-range columns, non-negative
+weights, centres may repeat): terminates; cluster id `>= 0` iff some centre reaches the node; the
+distance is the shortest-walk length over all centres and is realised from the node's own centre;
+distinct centres lie in their own clusters -/
+restate lloyd_pass_spec := PyamgV.ExtLloyd.lloyd_pass_spec
+/-- on a symmetric pattern the Bellman–Ford pass nested in `most_interior_nodes` terminates and leaves
+the cluster ids unchanged -/
+restate most_interior_keeps_clusters := PyamgV.ExtLloyd.innerPass_spec
+/-- `lloyd_cluster` (symmetric pattern, accepted input, distinct centres, `maxiter >= 1`) terminates
+with `LloydSpec`: ids `-1` or `0..k-1`, `clusters[centers[a]] = a` (no empty cluster, root in its
+cluster, roots distinct), assigned iff reachable from a returned centre, members connected to their root -/
+restate lloyd_cluster_spec := PyamgV.ExtLloyd.lloydCluster_spec
+/-- the CSR arrays of `AggOp`: one unit entry `(i, clusters[i])` per assigned node, empty rows for `-1` -/
+restate lloyd_aggop_spec := PyamgV.ExtLloyd.aggOp_spec
+/-- `lloyd_aggregation` as a whole (measure, `naggs`, replayed permutation, clustering, assembly) -/
+restate lloyd_aggregation_spec := PyamgV.ExtLloyd.lloydAggregation_spec
+
+/-! non-vacuity (Lloyd): the weighted path 0–1–2 (weights 1, 3) with an isolated node 3 satisfies the
+hypotheses; centres 0 and 2: node 1 joins centre 0, node 3 cannot be reached and stays `-1` -/
+def lloydP4 : N.Csr := ⟨4, #[0,1,3,4,4], #[1,0,2,1], #[1,1,3,3]⟩
+example : ExtLloyd.SymPat lloydP4 := by unfold ExtLloyd.SymPat; decide
+example : ∀ i, i < lloydP4.n → ∀ jj ∈ lloydP4.jjs i, N.rdN lloydP4.aj jj < lloydP4.n := by decide
+example : ExtLloyd.accepts lloydP4 #[0, 2] = true := by decide +kernel
+example : ExtLloyd.lloydCluster lloydP4 #[0, 2] 3 = .ok (some (#[0, 0, 1, -1], #[0, 2])) := by decide +kernel
+example : ExtLloyd.lloydAggregation lloydP4 "unit" (1/2) #[3, 1, 0, 2] 3 =
+    .ok (some ((#[0, 1, 2, 3, 4], #[1, 1, 1, 0], #[1, 1, 1, 1]), #[3, 1])) := by decide +kernel
 
 /-! non-vacuity: the path 0–1–2 with an isolated node 3 -/
 example : (Agg.standardAggregation ⟨4, fun i => [[1],[0,2],[1],[]].getD i []⟩).1 = #[0, 0, 0, -1] := by decide
